@@ -108,3 +108,22 @@ DUNDER = {"+": "add", "-": "sub", "*": "mul", "/": "truediv", "//": "floordiv", 
 def method_of(f: dict) -> str:
     """the std method a form ends up in (stable identifier of the failing call site)"""
     return f"{nv.op_type(f)}.__{DUNDER.get(f['op'], f['op'])}__"
+
+
+def replay_case(src: str, a, b, lit_left: bool = False):
+    """compile `src` (function f) from /repo and call it on (a, b) -> outputs or panic"""
+    import gp
+    import runner
+    from hugr_interp import Interp
+
+    mod = gp.load(src)
+    try:
+        pkg = mod.f.compile_function()
+        nparams = src.split("def f(")[1].split(")")[0].count(":")
+        args = [x for x in (a, b) if x is not None][:nparams]
+        if nparams == 1 and lit_left:
+            args = [b]
+        out = Interp(pkg.modules[0]).run("f", [runner.to_interp(x) for x in args])
+        return out.get("outputs", out.get("panic"))
+    finally:
+        gp.unload(mod)
